@@ -187,7 +187,7 @@ class Writes:
                                "replace", "join", "format", "to_ical", "keys", "sorted_keys",
                                "startswith", "endswith", "isdigit", "strftime", "total_seconds"):
                     return set()
-                out = self.expr_roots(f, fn.value, roots)
+                out = {r for r in self.expr_roots(f, fn.value, roots) if not r.startswith("g:")}
                 for a in e.args:
                     out |= self.expr_roots(f, a, roots)
                 return out
@@ -203,7 +203,7 @@ class Writes:
 
         def note(rs, node, what):
             for r in rs:
-                out.setdefault(r, (f, node, what, None))
+                out.setdefault((r, (f.qualname, what)), (f, node, what, None))
 
         for n in walk_no_nested(f.node):
             # direct stores
@@ -261,9 +261,9 @@ class Writes:
                 for k in call.keywords:
                     if k.arg in gparams:
                         actual[gparams.index(k.arg)] = k.value
-                for r, w in gs.items():
+                for (r, site), w in gs.items():
                     if r.startswith("g:"):
-                        out.setdefault(r, (f, call, f"call {g.qualname}", w))
+                        out.setdefault((r, site), (f, call, f"call {g.qualname}", w))
                         continue
                     i = int(r[1:])
                     a = actual.get(i)
@@ -271,7 +271,7 @@ class Writes:
                         continue
                     rs = self.base_roots(f, a, roots)
                     for rr in rs:
-                        out.setdefault(rr, (f, call, f"call {g.qualname}", w))
+                        out.setdefault((rr, site), (f, call, f"call {g.qualname}", w))
         return out
 
 
@@ -404,7 +404,7 @@ def run(ctx):
     if len(cone) < 40:
         raise AnalysisError(f"to_ical cone has only {len(cone)} functions (60+ confirmed by hand)")
     n = 0
-    for r, w in sorted(summ.items()):
+    for (r, site), w in sorted(summ.items(), key=lambda kv: (kv[0][0], kv[0][1])):
         rt = root_of(w)
         n += 1
         ctx.fail("C10/PURE", f"to_ical writes via {('self' if r == 'p0' else r)} @ {rt[0].qualname}: {rt[2][:50]}",
@@ -420,7 +420,7 @@ def run(ctx):
         if g is None:
             continue
         s = W.fixpoint(g)
-        bad = {r: w for r, w in s.items() if r == "p0" or r.startswith("g:")}
+        bad = {r: w for (r, site), w in s.items() if r == "p0" or r.startswith("g:")}
         ctx.check(not bad, "C10/PURE", f"{cname}.to_ical does not modify the value",
                   f"{cname}.to_ical stores into the value it renders "
                   f"({'; '.join(root_of(w)[2] for w in bad.values())[:120]}): the tree changes "
